@@ -1,4 +1,4 @@
-import BiotiteModel.Model.C12Grp
+import BiotiteModel.Model.C12Feat
 /-! Line-protocol driver for C12.  Strings travel as comma separated code points (`_` = empty),
 lists of strings joined by `|` (`-` = empty list), pairs by `~`, nested lists by `^`. -/
 namespace BiotiteModel.Driver.C12
@@ -129,6 +129,36 @@ def encGFeat (f : GFeat Str) : String :=
   let att := f.qual.map (fun kv => encStr kv.1 ++ "~" ++ encStr kv.2)
   s!"{encStr f.key}:{joinWith "|" locs}:{if att.isEmpty then "-" else joinWith "|" att}"
 
+/-- qualifiers `k~v|k~!` (`!` = no value) -/
+def decQuals (t : String) : Option (List Qual) :=
+  if t == "-" then some [] else
+  (t.splitOn "|").mapM (fun p => match p.splitOn "~" with
+    | [k, v] => match decStr k with
+      | some k => if v == "!" then some (k, none) else (decStr v).map (fun v => (k, some v))
+      | none => none
+    | _ => none)
+
+def encQuals (q : List Qual) : String :=
+  if q.isEmpty then "-" else
+  joinWith "|" (q.map (fun kv => encStr kv.1 ++ "~" ++ (match kv.2 with | some v => encStr v | none => "!")))
+
+/-- feature `key@loc;loc@quals` -/
+def decFeat (t : String) : Option GbFeat :=
+  match t.splitOn "@" with
+  | [k, ls, q] =>
+    match decStr k, (ls.splitOn ";").mapM decLoc, decQuals q with
+    | some k, some ls, some q => some ⟨k, ls, q⟩
+    | _, _, _ => none
+  | _ => none
+
+def encFeat (f : GbFeat) : String :=
+  s!"{encStr f.key}@{joinWith ";" (sortDedup (f.locs.map encLoc))}@{encQuals f.quals}"
+
+def showFeats (r : Except Err (List GbFeat)) : String :=
+  match r with
+  | .ok fs => let l := sortDedup (fs.map encFeat); "ok " ++ (if l.isEmpty then "-" else joinWith "#" l)
+  | .error e => errS e
+
 def asciiOnly (s : Str) : Bool := s.all (fun c => c.toNat < 128)
 
 def upd {α : Type} (st : St) (r : Except Err α) (wrapSt : α → St) (sh : α → String) : St × String :=
@@ -254,6 +284,28 @@ def step (st : St) (line : String) : St × String :=
   | ["gff_parse", l] =>
     match decStr l with
     | some l => (st, match parseLine l with | .ok e => encEntryB e | .error e => errS e)
+    | none => bad
+  | ["gbf_parse", ls] =>
+    match decList ls with
+    | some ls => (st, if ls.all asciiOnly then showFeats (parseFeatures ls) else "unmodelled")
+    | none => bad
+  | ["gbf_print", ft] =>
+    match decFeat ft with
+    | some f => (st, "ok " ++ encList (featLines f.key (printLocs f.locs) f.quals))
+    | none => bad
+  | ["gbf_rt", fts] =>
+    match (fts.splitOn "#").mapM decFeat with
+    | some fs => (st, showFeats (parseFeatures (printFeatures fs)))
+    | none => bad
+  | ["org_print", start, sq] =>
+    match start.toInt?, decStr sq with
+    | some a, some sq => (st, "ok " ++ encList (printOrigin a sq))
+    | _, _ => bad
+  | ["org_read", ls] =>
+    match decList ls with
+    | some ls =>
+      let a := match originStart ls with | .ok a => toString a | .error e => errS e
+      (st, s!"ok {a} {encStr (originSeq ls)}")
     | none => bad
   | ["gff_group", ents] =>
     match (if ents == "-" then some [] else (ents.splitOn ";").mapM decGEnt) with
